@@ -194,6 +194,69 @@ SIBLINGS = [
 ]
 
 
+
+def be_decode_exact(cx, qual):
+    """`u256_from_be_bytes`: limb 3-i is the big-endian u64 at bytes 8i..8i+8 of the input, i = 0..3 -- decided exactly
+    when the limbs are stored as `out[L] = u64::from_be_bytes(<8-byte window of input>)` in a constant-trip loop: index
+    and window bounds are evaluated for every iteration.  (True/False, text) or None when the function is not of that form
+    (for instance sequential reads through a Cursor), in which case only the sibling comparison speaks."""
+    from . import ctext as CT, rules_i as _I
+    fn = cx.F.fns.get(qual)
+    if fn is None:
+        return None
+    arrs = [l.get('name') for l in fn.locals if l.get('name') and (l.get('ty') or '').replace(' ', '') == '[u64;4]']
+    st = [(a_, b_) for nm in arrs for a_, b_ in _I.stores(fn, cx.F, nm)]
+    st = [(_I.shorten_vars(a_), _I.shorten_vars(b_)) for a_, b_ in st]
+    if st == [('each(rev(Range::Range{0, 4}))', 'unwrap(read_u64(new(%s)))' % ('$' + fn.local_name(1)))]:
+        # sequential reads through one Cursor over the input: the k-th iteration (limb 3-k) reads bytes 8k..8k+8;
+        # big-endian by the type argument of read_u64, one cursor created before the loop, one read per iteration
+        rd = [(b_, t_) for b_, t_ in fn.calls() if t_['fn']['k'] == 'def' and last(t_['fn']['name']) == 'read_u64']
+        nw = [b_ for b_, t_ in fn.calls() if t_['fn']['k'] == 'def' and last(t_['fn']['name']) == 'new' and 'Cursor' in (t_['fn']['name'] + (t_['fn'].get('generic') or ''))]
+        loops = [c_ for c_ in fn.sccs() if len(c_) > 1]
+        ok = len(rd) == 1 and 'BigEndian' in (rd[0][1]['fn'].get('generic') or '') and len(nw) == 1 and len(loops) == 1 and rd[0][0] in loops[0] and nw[0] not in loops[0]
+        return (ok, 'limb 3-k = k-th sequential big-endian u64 read of a Cursor over the input, k = 0..3 (one cursor, one read per iteration)')
+    if not st or not all(v_.startswith('from_be_bytes:u64(') for _, v_ in st):
+        return None
+    pname = '$' + fn.local_name(1)
+    seen = {}
+    for it, vt in st:
+        try:
+            ix, val = CT.parse(it), CT.parse(vt)
+        except CT.ParseError as ex_:
+            return (False, str(ex_))
+        ctr = CT.counters(ix) | CT.counters(val)
+        if len(ctr) > 1:
+            return (False, 'more than one loop counter')
+        doms = [None] if not ctr else CT.counter_domain(list(ctr)[0])
+        if doms is None:
+            return (False, 'the loop does not run over a constant range')
+        for t_ in doms:
+            env = {list(ctr)[0]: t_} if ctr else {}
+            L = CT.ev(ix, env)
+            # walk from_be_bytes:u64( unwrap / try_into / [..] wrappers ) down to the window index(base, Range{a, b})
+            node = val[2][0] if val[0] == 'call' and len(val[2]) == 1 else None
+            while node is not None and ((node[0] == 'call' and node[1] in ('unwrap', 'try_into', 'expect') and node[2]) or (node[0] == 'aggr' and node[1] == 'list' and len(node[2]) == 1)):
+                node = node[2][0]
+            off = 0
+            ok = False
+            if node is not None and node[0] == 'call' and node[1] in ('index', 'index_mut') and len(node[2]) == 2 and node[2][1][0] == 'aggr' and node[2][1][1] == 'Range::Range':
+                a_, b_ = CT.ev(node[2][1][2][0], env), CT.ev(node[2][1][2][1], env)
+                base = node[2][0]
+                if base[0] == 'call' and base[1] == 'index' and len(base[2]) == 2 and base[2][1][0] == 'aggr' and base[2][1][1] == 'RangeTo::RangeTo':
+                    base = base[2][0]          # input[..32][a..b]
+                if base == ('sym', pname) and None not in (a_, b_, L):
+                    ok = b_ - a_ == 8 and 0 <= L <= 3 and a_ == 8 * (3 - L)
+            if not ok:
+                return (False, 'limb %s is not the big-endian u64 at input[%s..%s+8] (store %s = %s)' % (L, 8 * (3 - L) if L is not None else '?', 8 * (3 - L) if L is not None else '?', it[:50], vt[:90]))
+            if L in seen:
+                return (False, 'limb %d is stored twice' % L)
+            seen[L] = True
+    if sorted(seen) != [0, 1, 2, 3]:
+        return (False, 'limbs stored: %s' % sorted(seen))
+    rets = [v_ for _, v_ in _I.returns(fn, cx.F)]
+    return (True, 'limb 3-i = BE64(input[8i..8i+8]) for i = 0..3 (indices and window bounds evaluated for every iteration)')
+
+
 def s_siblings(cx, rule, only=None):
     """implementations of the same operation (code duplicated between the SM2 and SM9 crates, between the 256- and
     512-bit widths, and between the mod-p and mod-n variants) must have the same structure up to the listed renaming.
@@ -209,6 +272,24 @@ def s_siblings(cx, rule, only=None):
         # depend on temporaries or statement order; groups with a member that loops keep the structural fingerprint
         from .rules_poly import path_summary
         sums = {}
+        exact = {}
+        if label == 'be-decode':
+            # a copy that is decided exactly on its own does not take part in the cross-check
+            for name, sub in members:
+                r_ = be_decode_exact(cx, name)
+                if r_ is not None:
+                    exact[name] = r_
+                    fn_ = cx.F.fns.get(name)
+                    cx.add('I-BE-DECODE', name, r_[0], r_[1], fn_.loc() if fn_ is not None else '')
+            members = [(n_, s_) for n_, s_ in members if n_ not in exact]
+            if len(members) < 2:
+                for n_, s_ in members:
+                    fn_ = cx.F.fns.get(n_)
+                    if fn_ is None:
+                        cx.lost(rule, '%s/%s' % (label, n_), 'sibling implementation not found')
+                    else:
+                        cx.add(rule, '%s/%s' % (label, n_.split('::', 1)[-1]), False, 'this copy is of a form that is neither decided exactly nor has a sibling of the same form to be compared with', fn_.loc())
+                continue
         for name, sub in members:
             fn = cx.F.fns.get(name)
             sums[name] = path_summary(cx.F, fn) if fn is not None else None
